@@ -20,7 +20,7 @@ import (
 	"github.com/lidofinance/dc4bc/storage"
 )
 
-var c18Kinds = []string{"field-deleted", "type-confused", "negative-int", "huge-int", "empty-array", "oversized-array",
+var c18Kinds = []string{"contribution-blob-with-null-or-partial-entries", "field-deleted", "type-confused", "negative-int", "huge-int", "empty-array", "oversized-array",
 	"short-id", "unknown-event", "unknown-round", "error-report-naming-nobody", "registered-key-of-odd-length", "junk-bytes-value", "truncated-bytes-value", "baked-range-negative", "baked-range-huge", "not-json", "null-value", "deep-nesting",
 	"sealed-deal-mutated-inside"}
 
@@ -472,6 +472,11 @@ func runC18(w *World, tier string) (bool, interface{}) {
 				var d []byte
 				ok := false
 				switch kind {
+				case "contribution-blob-with-null-or-partial-entries":
+					// what another participant published (its commitments, its responses) is an opaque
+					// blob to the nodes and reaches the machine inside the next step's operation file:
+					// a list holding null, or an entry with most of its fields missing
+					d, ok = mutateContributionBlob(w, opJSON)
 				case "sealed-deal-mutated-inside":
 					// structure-aware mutation under the encryption layer: a deal addressed to this
 					// machine is opened with its key (hook H2), mutated as JSON and sealed again
@@ -707,6 +712,36 @@ func panicSite(stack string) string {
 		}
 	}
 	return strings.Join(out, " <- ")
+}
+
+// mutateContributionBlob replaces one participant's published contribution inside a
+// deals-step (commitments) or master-key-step (responses) operation file.
+func mutateContributionBlob(w *World, opJSON []byte) ([]byte, bool) {
+	var om map[string]json.RawMessage
+	if json.Unmarshal(opJSON, &om) != nil {
+		return nil, false
+	}
+	var typ string
+	_ = json.Unmarshal(om["Type"], &typ)
+	field := map[string]string{"state_dkg_deals_await_confirmations": "DkgCommit", "state_dkg_master_key_await_confirmations": "DkgResponse"}[typ]
+	if field == "" {
+		return nil, false
+	}
+	var pl []byte
+	if json.Unmarshal(om["Payload"], &pl) != nil {
+		return nil, false
+	}
+	var entries []map[string]interface{}
+	if json.Unmarshal(pl, &entries) != nil || len(entries) == 0 {
+		return nil, false
+	}
+	blobs := []string{`[null]`, `[{"Index":1}]`, `[{"Response":null}]`, `[null,null]`, `null`, `[{}]`, `[{"Index":0,"Response":{}}]`}
+	k := w.Tape.Choose(len(entries), "whoseContribution")
+	entries[k][field] = base64.StdEncoding.EncodeToString([]byte(blobs[w.Tape.Choose(len(blobs), "blob")]))
+	npl, _ := json.Marshal(entries)
+	om["Payload"], _ = json.Marshal(npl)
+	out, _ := json.Marshal(om)
+	return out, true
 }
 
 // mutateSealedDeal rewrites one DkgDeal entry of a responses-step operation file.
